@@ -79,8 +79,13 @@ class C11(Prop):
             xdt = "float64"
             if all(v.denominator == 1 for v in X) and rng.random() < 0.4:
                 xdt = rng.choice(["float32", "int32", "int64"])
-            lists = xdt == "float64" and rng.random() < 0.15  # plain Python lists whose first element is a numpy integer scalar
-            yield {"stream": "fit", "f": f, "level": lv, "inc": rng.random() < 0.5, "xdtype": xdt, "lists": lists, "X": [str(v) for v in X],
+            ydt = None
+            if all(v.denominator == 1 and 0 <= v <= 200 for v in ys) and rng.random() < 0.5:
+                ydt = rng.choice(["uint8", "uint16", "uint64", "int8"])
+                if ydt == "int8" and any(v > 100 for v in ys):
+                    ydt = "uint8"
+            lists = xdt == "float64" and ydt is None and rng.random() < 0.15  # plain Python lists whose first element is a numpy integer scalar
+            yield {"stream": "fit", "f": f, "level": lv, "inc": rng.random() < 0.5, "xdtype": xdt, "lists": lists, "ydtype": ydt, "X": [str(v) for v in X],
                    "y": [str(v) for v in ys], "w": None if w is None else [str(v) for v in w],
                    "q": [str(v) for v in sorted(q)], "perm": perm}
 
@@ -89,6 +94,8 @@ class C11(Prop):
 
         X = np.array([float(Fraction(v)) for v in case["X"]]).astype(case.get("xdtype", "float64"))
         y = np.array([float(Fraction(v)) for v in case["y"]])
+        if case.get("ydtype"):
+            y = y.astype(case["ydtype"])  # counts held in an unsigned / narrow integer dtype
         w = None if case.get("w") is None else np.array([float(Fraction(v)) for v in case["w"]])
         q = np.array([float(Fraction(v)) for v in case["q"]])
         lv = ic.level_float(case["level"])
